@@ -422,6 +422,7 @@ class PedSim:
         if self.in_probe:
             return out
         np = self.np
+        self.record_kernel("ped_gibbs", a, before, out)
         if not np.array_equal(X, before):
             self.viol("state_update", "gibbs_probabilities did not restore the state", before=before, after=X)
         if "db" in self.checks:
@@ -469,6 +470,7 @@ class PedSim:
         if self.in_probe:
             return out
         np = self.np
+        self.record_kernel("ped_mh", a, before, out)
         if not np.array_equal(X, before):
             self.viol("state_update", "metropolis_hastings_probabilities did not restore the state", before=before, after=X)
         if "db" in self.checks:
@@ -510,6 +512,19 @@ class PedSim:
                 self.ctx.key("pmh", self.cfg["topology"], tuple(self.cfg["ploidy"]), s, cur, al,
                              tuple(tuple(sorted(int(v) for v in before[i, : self.ploidy[i]])) for i in mem))
         return out
+
+    def record_kernel(self, kind, a, X, vec):
+        if not self.cfg.get("record_kernels") or len(self.ctx.extra) >= 2:
+            return
+        np = self.np
+        vec = np.array(vec, dtype=np.float64)
+        if not np.all(np.isfinite(vec)):
+            return
+        reads = [[[[None if v != v else float(v) for v in row] for row in rd] for rd in smp] for smp in self.reads.tolist()]
+        self.ctx.extra.append({"kind": kind, "target": int(a["target_index"]), "allele": int(a["allele_index"]), "X": np.asarray(X).tolist(),
+                               "ploidy": self.ploidy.tolist(), "parents": self.parents.tolist(), "tau": self.tau.tolist(), "lambda": self.lam.tolist(),
+                               "error": self.err.tolist(), "reads": reads, "counts": self.counts.tolist(), "haplotypes": self.haps.tolist(),
+                               "log_frequencies": self.lf.tolist(), "vector": vec.tolist()})
 
     def w_swap(self, *args, **kwargs):
         a = bind(self.real["swap"], args, kwargs)
